@@ -178,6 +178,12 @@ func (s *service) GetChunkHashes(ctx context.Context, addr boson.Address, pyrami
 		bmtWriter := bmt.NewBmtWriter(&noopChainWriter{})
 		for hash, data := range pyramid {
 			var ref boson.Address
+			// the BMT hasher only takes the first boson.ChunkSize bytes: an
+			// over-long entry would verify and be stored as an invalid chunk
+			if len(data) > boson.ChunkSize+boson.SpanSize {
+				err = ErrInvalidPyramid
+				return
+			}
 			args := pipeline.PipeWriteArgs{Data: data}
 			err = bmtWriter.ChainWrite(&args)
 			if err != nil {
